@@ -206,6 +206,23 @@ def F21():
     return r[0] != r[1], f"without / with an inapplicable 1-arg method: {r}"
 
 
+def F22():
+    """C15: the values of a Literal in another order are a different signature (ordered equality)."""
+    from ovld.dependent import Equals
+    def a(x: Literal[1, 2]): return "first"
+    def b(x: Literal[1, 2]): return "second"
+    def c(x: Literal[2, 1]): return "second"
+    same = Ovld(name="same", allow_replacement=False); same.register(a)
+    reo = Ovld(name="reordered", allow_replacement=False); reo.register(a)
+    r_same = outcome(lambda: same.register(b) and "accepted")
+    r_reo = outcome(lambda: reo.register(c) and "accepted")
+    d1, d2 = Ovld(name="d1"), Ovld(name="d2")
+    d1.register(a); d1.register(b); d2.register(a); d2.register(c)
+    disp = ([outcome(lambda: d1(v)) for v in (1, 2)], [outcome(lambda: d2(v)) for v in (1, 2)])
+    shown = Equals[1, 2] != Equals[2, 1] and r_same != r_reo
+    return shown, f"Equals[1,2]==Equals[2,1]: {Equals[1, 2] == Equals[2, 1]}; re-registering under allow_replacement=False: same spelling -> {r_same[:35]!r}, reordered -> {str(r_reo)[:20]!r}; dispatch same/reordered: {disp}"
+
+
 # --------------------------------------------------------------------------- C18 / C19
 def F05():
     """C18: a failed build leaves the generated entry point live over a partially filled table."""
@@ -430,7 +447,7 @@ def F20():
 
 
 ALL = ["F01", "F02", "F03", "F04", "F05", "F06", "F07", "F08", "F09", "F10", "F11",
-       "F12", "F13", "F14", "F15", "F16", "F17", "F18", "F19", "F20", "F21"]
+       "F12", "F13", "F14", "F15", "F16", "F17", "F18", "F19", "F20", "F21", "F22"]
 
 if __name__ == "__main__":
     ids = sys.argv[1:] or ALL
